@@ -348,6 +348,8 @@ func sysErrKind(err error) string {
 	}
 	s := err.Error()
 	switch {
+	case strings.Contains(s, "custom cause"):
+		return "cause"
 	case errors.Is(err, context.Canceled) || strings.Contains(s, "context canceled"):
 		return "canceled"
 	case errors.Is(err, context.DeadlineExceeded) || strings.Contains(s, "deadline exceeded"):
@@ -593,7 +595,10 @@ func runOne(c *fakecluster.Cluster, run sysRun) (out runOut) {
 		"metadata": map[string]interface{}{"name": invTemplateName, "namespace": sysInvNs, "labels": map[string]interface{}{common.InventoryLabel: sysInvID}},
 	}})
 
-	ctx, cancel := context.WithCancel(context.Background())
+	// the caller cancels WITH A CAUSE of its own: ctx.Err() stays context.Canceled (what the run must report), context.Cause(ctx)
+	// is the caller's private error (what it must not report instead)
+	ctx, cancelCause := context.WithCancelCause(context.Background())
+	cancel := func() { cancelCause(errors.New("the caller gave up (custom cause)")) }
 	defer cancel()
 
 	// cancellation while a mutating request is in flight
